@@ -3,8 +3,8 @@ def table(J):
     return {
         "C01": [J("TestC01", checks=(6000, 40000), shards=(2, 16))],
         "C02": [J("TestC02", checks=(5000, 40000), shards=(2, 16)), J("TestC02Histories", checks=(400, 6000), shards=(2, 8)), J("TestC02Constants")],
-        "C03": [J("TestC03", checks=(6000, 40000), shards=(2, 16), fuzz=("FuzzC03", 120)), J("TestC03Histories", checks=(400, 6000), shards=(2, 8))],
-        "C04": [J("TestC04", checks=(6000, 40000), shards=(2, 16), fuzz=("FuzzC04", 120))],
+        "C03": [J("TestC03", checks=(6000, 40000), shards=(2, 16), fuzz=("FuzzC03", 120)), J("TestC03Histories", checks=(400, 6000), shards=(2, 8)), J("TestC03Constants")],
+        "C04": [J("TestC04", checks=(6000, 40000), shards=(2, 16), fuzz=("FuzzC04", 120)), J("TestC04Constants")],
         "C05": [J("TestC05", checks=(8000, 60000), shards=(4, 16), fuzz=("FuzzC05", 120))],
         "C06": [J("TestC06", checks=(8000, 60000), shards=(4, 16))],
         "C07": [J("TestC07", checks=(40000, 250000), shards=(4, 16), limit=(600, 2400)), J("TestC07Trunc", shards=(4, 16), limit=(600, 2400), fuzz=("FuzzC07Parse", 240)), J("TestC07Stream", race=True, checks=(40, 400), shards=(2, 8), limit=(900, 3000)), J("TestC07LenSweep", checks=(1200, 20000), shards=(4, 16), limit=(600, 2400))],
